@@ -187,7 +187,12 @@ impl<'a> Client<'a> {
 
     /// A clause failed. Own property => violation; foreign => note and (optionally) stop.
     fn fail(&mut self, clause: &str, op: &str, detail: &str, msg: String, stop_if_foreign: bool) -> bool {
-        let p = clause_property(clause);
+        let mut p = clause_property(clause);
+        // a store whose contents are wrong after a failed operation is also not a
+        // faithful map: C09 reports these too (C11 owns the atomicity wording)
+        if self.prop == "C09" && matches!(clause, "atomicity" | "owned-merge-restores") {
+            p = "C09";
+        }
         if p == self.prop {
             if self.res.violation.is_none() {
                 self.res.violation = Some(Violation::new(p, clause, op, detail, msg));
